@@ -37,7 +37,7 @@ def generate(tier, seed):
                     "    vk::leak(a); vk::leak(b); vk::leak(ra); vk::leak(rb);" % (L[a][0], L[b][0], "\n    ".join(calls)))
             src.append(c11.fn(n, body))
             hs.append(Harness(n, "OwnedTerm::cmp / BorrowedTerm::cmp == Erlang term order on shapes %s x %s %s" % (a, b, suffix),
-                              unwind=c11.UNW, unwindset=c11.UWS, recursion=c11.rec_for([a, b]), cap_s=c11.CAP,
+                              unwind=c11.UNW, unwindset=c11.UWS, recursion=c11.rec_for([a, b]), cap_s=(900 if 'tuple2ii' in (a, b) else c11.CAP),
                               cuts=c11.cuts_for([a, b]), typed_heap=c11.has_container([a, b])))
     for a, bs in c11.cross_groups().items():
         n = "c12_cross__%s" % a
